@@ -1292,6 +1292,8 @@ def contains(I, c, x):
         if is_sym(x):
             raise Unsupported('symbolic in Enum')
         return x in c
+    if isinstance(c, enum.Flag) and isinstance(x, enum.Flag):
+        return x in c          # concrete flag values: the real enum.Flag.__contains__
     if isinstance(c, PObj):
         m = I.find_method(c.cls, '__contains__')
         if m is not None:
@@ -1567,7 +1569,7 @@ def jsontext_eq(I, a, b):
         return json_value_eq(I, a.value, b.value, a.sort_keys)
     jt, other = (a, b) if isinstance(a, JsonText) else (b, a)
     if isinstance(other, str):
-        first = {'PDict': '{', 'PList': '['}.get(type(jt.value).__name__)
+        first = '{' if isinstance(jt.value, PDict) else '[' if isinstance(jt.value, PList) else None
         if first is None or not other.startswith(first):
             if first is not None:
                 return False
